@@ -1,0 +1,18 @@
+//go:build verif
+
+// Contracts for cmd/cim2bin, read by /verif/engine (vcheck).  Comments only.
+
+package main
+
+// run: for every input image and load offset whose end address fits in 16
+// bits, the output file is 0xFE, start, end = start+length-1, exec = start as
+// little-endian words followed by the unmodified image; run fails only if an
+// OS / I/O call failed.  g.In is the image as os.ReadFile returned it, the
+// chunks g.C0.. are what was written through the buffered writer, in order.
+//@ func run() (err error)
+//@   layer P
+//@   props C19
+//@   requires g.NC == 0 && !g.OSFailed
+//@   ensures [fails-only-with-the-OS] err == nil || g.OSFailed
+//@   ensures [container] err != nil || !vsFits(g.In, off0) || vsBinContainer(g, uint16(off0))
+//@   modifies g.In, g.NC, g.C0, g.C1, g.C2, g.C3, g.C4, g.C5, g.C6, g.C7, g.C8, g.C9, g.OSFailed
